@@ -19,8 +19,7 @@ theorem C03_to_code_reads_like_data (v : Ver) (T : OpTable) (blocks : List (List
     (htable : LT.fromLineMapping v.is310 ⟨out.lm.lines.map (fun p => (p.1, p.2.map (· - fln))), out.lm.extra⟩ = .ok table)
     (argc pos kw nl ss fl : Nat) (fname name : PStr)
     (hkind : ∀ ins ∈ blocks.flatten, KindOK T ins) (hopb : ∀ ins ∈ blocks.flatten, ins.op < 256)
-    (henc : ∀ args0 args fuel, relax v blocks.flatten (blockStarts blocks 0) fuel args0 = .ok args →
-      ∀ p ∈ blocks.flatten.zip args, Encodable p.1 p.2)
+    (henc : ∀ args, finalArgs v blocks addArgs fv tp = .ok args → ∀ p ∈ blocks.flatten.zip args, Encodable p.1 p.2)
     (hst : ∀ s ∈ blockStarts blocks 0, s < blocks.flatten.length) (hne : blocks.flatten ≠ [])
     (hlines : v.is310 = false → ∀ ins ∈ blocks.flatten, ins.line.isSome) :
     (Spec.read v T (.mk argc pos kw nl ss fl fln out.code table fname name out.names out.varnames fv out.cellvars consts')).length
